@@ -355,6 +355,18 @@ fn simple_op(db: &Database, ks: &HashMap<String, Keyspace>, t: &[&str]) -> Optio
             Ok(k) => format!("ok {}", k.path().file_name().map(|x| x.to_string_lossy().to_string()).unwrap_or_default()),
             Err(e) => format!("err:{}", errname(&e)),
         },
+        "wdrain" => {
+            // run queued worker messages on this thread until the queue is empty (databases opened with workers=0)
+            let mut n = 0;
+            loop {
+                match fjall::verif::worker_step(db) {
+                    Ok(Some(_)) => n += 1,
+                    Ok(None) => break format!("ok steps={n}"),
+                    Err(e) => break format!("err:{}", errname(&e)),
+                }
+                if n > 10_000 { break "err:TooManySteps".into(); }
+            }
+        }
         "persist" => res(&db.persist(persist_mode(a[0]))),
         "get" => match k(a[0]) {
             Some(k) => match k.get(unhex(a[1])) {
@@ -843,6 +855,69 @@ fn main() {
                         _ => match k.take(key) { Ok(Some(v)) => format!("some:{}", hex(&v)), Ok(None) => "none".into(), Err(e) => format!("err:{}", errname(&e)) },
                     },
                     _ => "err:NotTransactional".into(),
+                }
+            }
+            "lz4_values" | "lz4_verify" => {
+                // values above the journal compression threshold (4 KiB) whose LZ4 image is shorter than / longer than / EXACTLY as long as the value
+                fn gen(n: usize, rep_at: usize, rep_len: usize, seed: u64) -> Vec<u8> {
+                    let mut x = seed | 1;
+                    let mut v: Vec<u8> = (0..n).map(|_| { x ^= x << 13; x ^= x >> 7; x ^= x << 17; (x >> 24) as u8 }).collect();
+                    for i in 0..rep_len { if rep_at + i < n && 100 + i < n { v[rep_at + i] = v[100 + i]; } }
+                    v
+                }
+                let mut vals: Vec<(String, Vec<u8>)> = vec![];
+                vals.push(("compressible".into(), vec![0x41u8; 6000]));
+                vals.push(("random".into(), gen(5000, 0, 0, 7)));
+                fn gen2(total: usize, m: usize, tail: usize, gap: usize, seed: u64) -> Vec<u8> {
+                    let mut st = seed;
+                    let mut nx = move || { st = st.wrapping_mul(6364136223846793005).wrapping_add(1442695040888963407); (st >> 56) as u8 };
+                    let head = total - 2 * m - gap - tail;
+                    let mut v: Vec<u8> = (0..head).map(|_| nx()).collect();
+                    let x: Vec<u8> = (0..m).map(|_| nx()).collect();
+                    v.extend_from_slice(&x);
+                    for _ in 0..gap { v.push(nx()); }
+                    v.extend_from_slice(&x);
+                    for _ in 0..tail { v.push(nx()); }
+                    v
+                }
+                let mut found = None;
+                'search: for seed in 1..12u64 {
+                    for gap in [64usize, 16, 200] {
+                        for tail in 5..40usize {
+                            for rep_len in 8..80usize {
+                                let v = gen2(5000, rep_len, tail, gap, seed);
+                                if lz4_flex::compress(&v).len() == v.len() { found = Some((v, rep_len, seed)); break 'search; }
+                            }
+                        }
+                    }
+                }
+                let desc = match &found { Some((_, r, sd)) => format!("equal-size value found (repeat {r}, seed {sd})"),
+                    None => format!("no equal-size value found {:?}", (20..32usize).map(|r| lz4_flex::compress(&gen(5000, 3000, r, 1)).len()).collect::<Vec<_>>()) };
+                if let Some((v, _, _)) = found { vals.push(("equal-size".into(), v)); }
+                let Some(k) = w.ks.get(a[0]) else { println!("R {} {} => err:NoKs", ln + 1, t[0]); continue };
+                let k = k.inner().clone();
+                if t[0] == "lz4_values" {
+                    let mut r = String::new();
+                    for (name, v) in &vals {
+                        if let Err(e) = k.insert(format!("single-{name}"), v.clone()) { r = format!("err:{}", errname(&e)); }
+                    }
+                    let mut b = w.db.as_ref().expect("db").inner().batch();
+                    for (name, v) in &vals { b.insert(&k, format!("batch-{name}"), v.clone()); }
+                    if let Err(e) = b.commit() { r = format!("err:{}", errname(&e)); }
+                    if r.is_empty() { format!("ok {desc}, lz4 sizes {:?}", vals.iter().map(|(n, v)| (n.clone(), v.len(), lz4_flex::compress(v).len())).collect::<Vec<_>>()) } else { r }
+                } else {
+                    let mut bad = vec![];
+                    for (name, v) in &vals {
+                        for pre in ["single", "batch"] {
+                            match k.get(format!("{pre}-{name}")) {
+                                Ok(Some(got)) if &*got == v.as_slice() => {}
+                                Ok(Some(got)) => bad.push(format!("{pre}-{name}: {} bytes read back, {} differ", got.len(), got.iter().zip(v.iter()).filter(|(a, b)| a != b).count())),
+                                Ok(None) => bad.push(format!("{pre}-{name}: missing")),
+                                Err(e) => bad.push(format!("{pre}-{name}: err:{}", errname(&e))),
+                            }
+                        }
+                    }
+                    if bad.is_empty() { "ok".into() } else { bad.join("; ") }
                 }
             }
             "rmfile" => match std::fs::remove_file(a[0]) {
